@@ -7,7 +7,7 @@ import re
 from .. import calg
 from ..pymodel import package
 from ..ratemodel import model as ratemodel, SELF
-from ..valueflow import Flow, acc_as_comp, as_map, lower, match, V, show, simp, walk
+from ..valueflow import Flow, acc_as_comp, as_dict_map, as_map, flatten_fstr, lower, match, peval, truthy, V, show, simp, subst, walk
 from .c05 import REF, arms_for, variant_text, COEFF, _about_law
 from .c10 import tables, grain_methods, GRAIN_CLASSES, delegated_types
 from .c11 import name_hole
@@ -283,7 +283,6 @@ def _r4(ctx, pkg):
     fl = Flow(fn, NET)
     writes = [f for f in fl.facts if f.kind == "call" and f.target == "write"]
     rec = [f for f in writes if f.loops and any(isinstance(x, tuple) and len(x) == 4 and x[0] == "fmt" and x[1][0] == "elem" for x in walk(simp(f.value)))]
-    nl = [f for f in writes if f.loops and simp(f.value[3][0]) in (("const", "\n"),)]
     ok = len(rec) == 1 and len(rec[0].loops) == 1 and simp(rec[0].loops[0].iter) == ("attr", SELF, "reaction_list") and not rec[0].guards
     if not rec or (len(rec) > 1 and all(f.guards for f in rec)):
         # no write of a formatted loop element found / one write per branch: the way records are written is not understood
@@ -291,12 +290,50 @@ def _r4(ctx, pkg):
     else:
         ctx.check(ok, "R4", "Network.write:one-record-per-reaction", (NET, fn.lineno), "every reaction of reaction_list is written once, in order, unconditionally",
                   found="; ".join(show(f.value)[:60] for f in rec))
-    g_ok = len(nl) == 1 and len(nl[0].guards) == 1 and nl[0].guards[0][1] is False and "krome" in show(nl[0].guards[0][0])
-    if not nl:
-        ctx.unrec("R4", "Network.write:terminator", (NET, fn.lineno), "no separate write of the line terminator found in the loop: how records are terminated is not understood")
+    # the terminator, by VALUE: with the format known not to be "krome" (the format name is the parameter that reaches the record's format
+    # spec), what the loop body writes per reaction -- all its writes in order, conditions on the format decided, whatever locals /
+    # conditional expressions / helpers the text passes through -- is the formatted reaction followed by exactly one newline
+    K = (NET, fn.lineno)
+    if not rec:
+        return
+    fparams = {y for x in walk(simp(rec[0].value)) if isinstance(x, tuple) and len(x) == 4 and x[0] == "fmt" and x[1][0] == "elem" and isinstance(x[2], tuple)
+               for y in walk(x[2]) if isinstance(y, tuple) and len(y) == 2 and y[0] == "param" and y[1] != "self"}
+    if len(fparams) != 1:
+        ctx.unrec("R4", "Network.write:terminator", K, f"cannot see which parameter names the format of the records ({sorted(p_[1] for p_ in fparams)})")
+        return
+    NK = {("cmp", ("Eq",), (next(iter(fparams)), ("const", "krome"))): False}
+    sure, maybe = [], []
+    for f in writes:
+        if not f.loops or len(f.value[3]) != 1:
+            continue
+        residual = []
+        dead = False
+        for c, pol in f.guards:
+            t = truthy(simp(peval(simp(c), NK, True)))
+            if t is None:
+                residual.append((c, pol))
+            elif t != pol:
+                dead = True
+        if dead:
+            continue
+        val = simp(peval(simp(f.value[3][0]), NK))
+        (maybe if residual else sure).append((f, val, residual))
+    text = flatten_fstr(("fstr", tuple(p_ for _f, val, _r in sure for p_ in (val[1] if val[0] == "fstr" else (val,) if val[0] == "const" and isinstance(val[1], str) else (("fmt", val, None, -1),)))))
+    parts = list(text[1]) if text[0] == "fstr" else [text]
+    recpart = [p_ for p_ in parts if p_[0] == "fmt" and p_[1][0] == "elem"]
+    after = parts[parts.index(recpart[0]) + 1:] if len(recpart) == 1 else None
+    cond_nl = [(f, r) for f, val, r in maybe if any(isinstance(x, tuple) and len(x) == 2 and x[0] == "const" and isinstance(x[1], str) and "\n" in x[1] for x in walk(val))]
+    if cond_nl:
+        f, r = cond_nl[0]
+        ctx.bad("R4", "Network.write:terminator", K, "the line terminator of a non-KROME record is written only under a further condition: records for which it does not hold run into the next one",
+                expected="exactly one newline after every record", found=f"{show(f.value)[:40]} guards {[(show(g)[:30], p_) for g, p_ in r]}")
+    elif after is None or maybe or any(p_[0] != "const" for p_ in after) or parts.index(recpart[0]) != 0:
+        ctx.unrec("R4", "Network.write:terminator", K, "what the loop writes per reaction in a non-KROME format is not understood as the formatted reaction followed by literal text: "
+                  + show(text)[:120] + (f" (+ {len(maybe)} conditional write(s))" if maybe else ""))
     else:
-        ctx.check(g_ok, "R4", "Network.write:terminator", (NET, fn.lineno), "each record of a non-KROME format is terminated by exactly one newline",
-                  found="; ".join(f"{show(f.value)[:40]} guards {[(show(g)[:30], p) for g, p in f.guards]}" for f in nl))
+        tail = "".join(p_[1] for p_ in after)
+        ctx.check(tail == "\n", "R4", "Network.write:terminator", K, "each record of a non-KROME format is terminated by exactly one newline",
+                  expected=repr("\n"), found=repr(tail))
 
 
 def _unify_env(regs, F):
@@ -466,6 +503,8 @@ def _content_tables_whole(ctx, pkg, rm):
         ctx.missing("R10", "BaseConfiguration.content", (CONF, ci.node.lineno), "the configuration writer vanished")
         return
     ctx.saw(CONF, "BaseConfiguration.content")
+    # the writer with the procedures it may have been split into put back (self._fill_x(content["x"]) is the run of stores it performs)
+    fn = pkg.expanded("BaseConfiguration", "content")
     fl = Flow(fn, CONF, consts=rm.module_consts(CONF), resolver=lambda name: pkg.resolve("BaseConfiguration", name)[1] if name.startswith("_") and not name.startswith("__") else None)
 
     def through_helpers(v, depth=0):
@@ -487,22 +526,23 @@ def _content_tables_whole(ctx, pkg, rm):
         key, attr = f.index[1], EXPORTED_TABLES[f.index[1]]
         n += 1
         T = ("attr", SELF, attr)
-        v = through_helpers(simp(f.value))
+        v = v0 = through_helpers(simp(f.value))
         while v[0] == "copy" or (v[0] == "call" and v[1] in (("global", "dict"), ("global", "list")) and len(v[2]) == 1 and not v[3]):
             v = v[1] if v[0] == "copy" else v[2][0]
         k = f"BaseConfiguration.content[{key!r}]"
         if v == T:
             ctx.ok("R10", k, (CONF, f.line), f"self.{attr} is written whole")
             continue
-        if v[0] == "comp" and len(v[3]) == 1:
-            tg, it, ifs = v[3][0]
-            src_ok = it in (T, ("meth", T, "items", (), ()))
-            if src_ok and ifs:
+        # a table re-spelled entry by entry: {str(k): v for k, v in T.items()}, dict(zip(map(str, T), T.values())), {str(k): T[k] for k in T} ..
+        dm = as_dict_map(v0)
+        if dm is not None and dm[4] == T:
+            K_, X_, kb, vb, _, ifs = dm
+            if ifs:
                 ctx.bad("R10", k, (CONF, f.line), f"entries of self.{attr} are filtered out on the way into naunet_config.toml ({'; '.join(show(c)[:50] for c in ifs)}): a value the filter "
                         "rejects (0, 0.0, '' ..) is a setting the user made, and the re-rendered project silently computes with the default instead",
                         expected=f"every entry of self.{attr}", found=show(v)[:120])
                 continue
-            if src_ok and not ifs:
+            if vb == X_ and any(x == K_ for x in walk(kb)) and not any(x == X_ for x in walk(kb)):
                 ctx.ok("R10", k, (CONF, f.line), f"every entry of self.{attr} is written (keys re-spelled)")
                 continue
         ctx.unrec("R10", k, (CONF, f.line), f"cannot see that self.{attr} reaches the configuration file whole: {show(v)[:120]}")
@@ -633,11 +673,14 @@ def _r6(ctx, pkg):
                 # the table was filled by a loop of element stores: the dict comprehension it is equal to
                 v = acc_as_comp(fl, v[1]) or v
             found = show(v)[:120]
-            shape = v[0] == "comp" and v[1] == "dict" and len(v[3]) == 1
+            # a dict comprehension over the species, however the species list reaches it (directly, through a local holding the
+            # filtered list, through a generator): composed into ONE map  {key(s): value(s) for s in <base> if <filters>}
+            m = as_map(("comp", "list", v[2], v[3])) if v[0] == "comp" and v[1] == "dict" else None
+            shape = m is not None and m[2] == ("attr", ("param", "network"), "species")
             if shape:
-                tg, it, ifs = v[3][0]
-                ok = it == ("attr", ("param", "network"), "species") and tuple(ifs) == (("attr", tg, "is_surface"),) and \
-                    v[2] == ("tuple", (("attr", tg, "name"), ("attr", tg, attr)))
+                bv, body, base, ifs = m
+                ok = tuple(ifs) == (("attr", bv, "is_surface"),) and body == ("tuple", (("attr", bv, "name"), ("attr", bv, attr)))
+                found = "{" + f"{show(body[1][0])}: {show(body[1][1])}" + "} " + f"for {show(bv)} in {show(base)}" + "".join(f" if {show(c)}" for c in ifs) if body[0] == "tuple" and len(body[1]) == 2 else found
             if not shape:
                 # not a table built per species (a helper's result, a merged dict ..): nothing visible is wrong
                 ctx.unrec("R6", f"NetworkConfiguration:{nm}", (CONF, vals[-1][3]), f"the exported {nm} table is not understood as a table over the species: {found}")
